@@ -101,7 +101,7 @@ fn neighbours2(bg: &[u8], mut f: impl FnMut(&[u8])) {
 }
 
 /// Roll along `seq` with the real SplitKmer and compare every window with the model and a fresh object
-fn check_rolling<I: Int>(rep: &mut Report, seq: &[u8], k: usize, rc: bool, reads: bool) {
+fn check_rolling_inner<I: Int>(rep: &mut Report, seq: &[u8], k: usize, rc: bool, reads: bool) {
     let h = (k - 1) / 2;
     let wins = windows(seq, k);
     let describe = || format!("roll bits={} k={k} rc={rc} reads={reads} seq={}", I::WIDTH, String::from_utf8_lossy(seq));
@@ -172,6 +172,19 @@ fn check_rolling<I: Int>(rep: &mut Report, seq: &[u8], k: usize, rc: bool, reads
             rep.violate(describe(), b, case());
             return;
         }
+    }
+}
+
+/// the real iterator may panic on a broken tree: that is a finding about the code, not an engine crash
+fn check_rolling<I: Int>(rep: &mut Report, seq: &[u8], k: usize, rc: bool, reads: bool) {
+    let r = std::panic::catch_unwind(std::panic::AssertUnwindSafe(|| check_rolling_inner::<I>(rep, seq, k, rc, reads)));
+    if let Err(e) = r {
+        let msg = crate::forkrun::panic_message(&e);
+        rep.violate(
+            format!("roll bits={} k={k} rc={rc} reads={reads} seq={}", I::WIDTH, String::from_utf8_lossy(seq)),
+            format!("sliding along the sequence panicked: {msg}"),
+            json!({"part":"roll","bits":I::WIDTH,"k":k,"rc":rc,"reads":reads,"seq":String::from_utf8_lossy(seq)}),
+        );
     }
 }
 
